@@ -469,7 +469,8 @@ def gen_prior(rng):
     for k, v in rng.sample(items, rng.randrange(1, 5)):
         prior[k] = v
     if rng.random() < 0.35:  # an older geff entry (or garbage under the key) is replaced, in place
-        old = pick(rng, [minimal_doc(), {"directed": 1}, [1, 2], "old", None])
+        # rich_doc(): an earlier geff entry with every optional field set -- a write of an object in which they are None must clear them
+        old = pick(rng, [minimal_doc(), rich_doc(), rich_doc(), {"directed": 1}, [1, 2], "old", None])
         keys = list(prior.items())
         keys.insert(rng.randrange(len(keys) + 1), ("geff", old))
         prior = dict(keys)
